@@ -171,6 +171,45 @@ def run(ctx, rep):
     rep.ob("C17.trace", "the error carries the call stack as rendered at the point of failure (with_context(|| stack.to_string()))",
            "ok" if okctx else "violated", "", ex.span, fn=ex.path, key="C17.trace|execute|stack-context")
 
+    # ---- (b) the rendering order: innermost first, every frame ----------------------------------------------------------------
+    disp = [f for f in F.crates["bytecode"].fns if f.path == "<bytecode::stack::Stack as core::fmt::Display>::fmt"]
+    if len(disp) != 1:
+        raise AnchorMissing("impl Display for Stack")
+    disp = disp[0]
+    lasts = disp.calls_to(("core::slice::<impl [T]>::last", "alloc::vec::Vec::last"))
+    revs = [c for c in disp.calls() if c.matches("core::iter::traits::iterator::Iterator::rev")]
+    thinning = [c for c in disp.calls() if c.matches(("core::iter::traits::iterator::Iterator::skip", "core::iter::traits::iterator::Iterator::take",
+                                                       "core::iter::traits::iterator::Iterator::filter", "core::iter::traits::iterator::Iterator::step_by",
+                                                       "core::iter::traits::iterator::Iterator::skip_while", "core::iter::traits::iterator::Iterator::take_while"))]
+    nexts = [c for c in disp.calls() if c.matches("core::iter::traits::iterator::Iterator::next")]
+    # the loop iterates the reversed iterator
+    loop_rev = False
+    for nx in nexts:
+        oc = rules.origin_calls(disp, op_local(nx.args[0]), transparent=rules.TRANSPARENT | {"core::iter::traits::collect::IntoIterator::into_iter"})
+        if any(x.matches("core::iter::traits::iterator::Iterator::rev") for x in oc):
+            loop_rev = True
+    # the remaining frames are self.0[..size-1]: the range end derives from size() - 1
+    ranged = False
+    for bi, si, dst, rv, s in disp.assigns():
+        if "agg" in rv and "RangeTo" in str(rv["agg"].get("adt")):
+            l = op_local(rv["ops"][0])
+            for d in rules.defs_of(disp, l) if l is not None else []:
+                if d[0] == "assign" and "bin" in d[4] and d[4]["bin"].startswith("Sub") and (op_const(d[4]["r"]) or {}).get("int") == "1":
+                    ranged = True
+                elif d[0] == "assign" and "use" in d[4]:
+                    for d2 in rules.defs_of(disp, op_local(d[4]["use"])) if op_local(d[4]["use"]) is not None else []:
+                        if d2[0] == "assign" and "bin" in d2[4] and d2[4]["bin"].startswith("Sub") and (op_const(d2[4]["r"]) or {}).get("int") == "1":
+                            ranged = True
+    labels = 0
+    for bi, si, dst, rv, s in disp.assigns():
+        pl = rv.get("ref") or (op_place(rv["use"]) if "use" in rv else None)
+        if pl and any(e[0] == "field" and len(e) > 2 and e[2] == "label" for e in pl.get("p", [])):
+            labels += 1
+    okd = bool(lasts) and loop_rev and not thinning and ranged and labels >= 2
+    rep.ob("C17.trace", "Stack's Display prints the innermost frame first, then every other frame from the top of the stack down",
+           "ok" if okd else "violated", "last()=%s loop over rev()=%s rest is [..size-1]=%s no skip/take/filter=%s label printed at %d sites" % (
+               bool(lasts), loop_rev, ranged, not thinning, labels), disp.span, fn=disp.path, key="C17.trace|display|innermost-first")
+
     # ---- (c) assert position ---------------------------------------------------------------------------------------------
     ac = [f for f in F.find("compiler::ast::Compile::compile") if "assertion::Assertion" in f.path]
     if len(ac) != 1:
